@@ -90,6 +90,10 @@ func c12DBVals() []c12Val {
 		{"1-entry-db", refesl.Encode([]refesl.List{refesl.Mk(refesl.SHA256, 48, e(ownerA, 1))})},
 		{"3-entry-db", refesl.Encode([]refesl.List{refesl.Mk(refesl.SHA256, 48, e(ownerA, 1), e(ownerB, 2), e(ownerA, 3))})},
 		{"2-list-db", refesl.Encode([]refesl.List{refesl.Mk(refesl.X509, 16+40, refesl.Entry{Owner: ownerB, Data: fill(40, 7)}), refesl.Mk(refesl.SHA256, 48, e(ownerB, 9))})},
+		// legal databases a decoder might "tidy up": the same list twice (two key sets sharing a CA), an
+		// entry twice, and a list left without entries (what removing the last entry of a list leaves)
+		{"repeats-db", refesl.Encode([]refesl.List{refesl.Mk(refesl.SHA256, 48, e(ownerA, 1), e(ownerA, 1)), refesl.Mk(refesl.X509, 16+40, refesl.Entry{Owner: ownerB, Data: fill(40, 7)}),
+			refesl.Mk(refesl.X509, 0), refesl.Mk(refesl.X509, 16+40, refesl.Entry{Owner: ownerB, Data: fill(40, 7)})})},
 	}
 }
 
@@ -140,14 +144,9 @@ func c12Ops(tier string) []c12Op {
 	return ops
 }
 
+// c12Marshallable hands the value to the store as bytes: the harness does not run the value
+// through the library's decoder first (a decoder that alters or rejects it would hide the case).
 func c12Marshallable(v c12Var, val c12Val) efivar.Marshallable {
-	if v.isDB {
-		db, err := signature.ReadSignatureDatabase(bytes.NewReader(val.enc))
-		if err != nil {
-			panic(err)
-		}
-		return &db
-	}
 	return rawval(val.enc)
 }
 
